@@ -152,10 +152,71 @@ def prenex(q):
     return z3.ForAll(consts, body)
 
 
+def prenex_split(q):
+    """like prenex, but  forall x. g(x) -> (A(x) and forall y. B(x, y))  becomes the two quantifiers  forall x. g -> A  and
+    forall x, y. g -> B: a conjunct without y must not wait for a candidate for y.  (forall distributes over and; or over and.)"""
+    if not has_quant(q.body()):
+        return [q]
+    _prenex_n[0] += 1
+    vs = [z3.Const('ps!%d!%d' % (_prenex_n[0], i), q.var_sort(i)) for i in range(q.num_vars())]
+    body = z3.substitute_vars(q.body(), *reversed(vs))
+
+    def clauses(f):
+        if z3.is_and(f):
+            out = []
+            for c in f.children():
+                out.extend(clauses(c))
+            return out
+        if z3.is_or(f) and has_quant(f):
+            ch = list(f.children())
+            for i, c in enumerate(ch):
+                if has_quant(c) and z3.is_and(c):
+                    rest = ch[:i] + ch[i + 1:]
+                    out = []
+                    for x in c.children():
+                        out.extend(clauses(z3.Or(rest + [x])))
+                    return out
+            return [f]
+        return [f]
+    cls = clauses(body)
+    if len(cls) == 1:
+        return [prenex(q)]
+    out = []
+    for cl in cls:
+        used = [v for v in vs if _occurs(v, cl)]
+        qq = z3.ForAll(used, cl) if used else cl
+        if z3.is_quantifier(qq):
+            out.append(prenex(qq))
+        else:
+            out.append(qq)
+    return out
+
+
+def _occurs(v, f):
+    vid = v.get_id()
+    seen = set()
+    stack = [f]
+    while stack:
+        x = stack.pop()
+        i = x.get_id()
+        if i == vid:
+            return True
+        if i in seen:
+            continue
+        seen.add(i)
+        if z3.is_quantifier(x):
+            stack.append(x.body())
+        else:
+            stack.extend(x.children())
+    return False
+
+
 class Inst:
-    def __init__(self, formulas, rounds=3, use_idx=False):
+    def __init__(self, formulas, rounds=3, use_idx=False, must_contain=None):
         self.rounds = rounds
         self.use_idx = use_idx
+        self.must_contain = must_contain      # names of the goal's skolem constants: only candidate terms mentioning one of them (goal-directed mode)
+        self._mc = {}
         self.ground = []
         self.quants = []
         self.proxy_n = 0
@@ -170,7 +231,11 @@ class Inst:
                 self.add_formula(c)
             return
         if z3.is_quantifier(f) and f.is_forall():
-            self.quants.append(prenex(f))
+            for pq in prenex_split(f):
+                if z3.is_quantifier(pq):
+                    self.quants.append(pq)
+                else:
+                    self.add_formula(pq)
             return
         if not has_quant(f):
             self.ground.append(f)
@@ -379,7 +444,26 @@ class Inst:
         for vi, rep in pending_len:
             if not cands[vi]:
                 cands[vi].update(class_reads.get(find(rep), {}))
+        if self.must_contain:
+            cands = [{k: t for k, t in c.items() if self.mentions(t)} for c in cands]
         return cands
+
+    def mentions(self, t):
+        """does the ground term mention one of the goal's skolem constants?"""
+        i = t.get_id()
+        hit = self._mc.get(i)
+        if hit is not None and hit[0].eq(t):
+            return hit[1]
+        r = False
+        if z3.is_const(t):
+            r = t.decl().name() in self.must_contain
+        else:
+            for c in t.children():
+                if self.mentions(c):
+                    r = True
+                    break
+        self._mc[i] = (t, r)        # (the term is kept alive: z3 recycles the ids of freed terms)
+        return r
 
     def index_constants(self, forms):
         """ground integer terms that are asserted non-negative somewhere (skolem indices of negated universal goals, loop counters):
@@ -536,13 +620,48 @@ def relevant(hyps, goal, depth):
 TRACE = bool(os.environ.get('PYVC_TRACE'))
 
 
-def prove(hyps, goal, timeout_ms=10000, rounds=5, want_model=False, fallbacks=True):
+def prove(hyps, goal, timeout_ms=10000, rounds=5, want_model=False, fallbacks=True, focus=None):
     """1. deterministic instantiation over all hypotheses; 2. the same over only the hypotheses near the goal (any subset is sound),
     with index-like skolem constants as extra candidates; 3. all hypotheses with those candidates; 4. z3 quantifiers; 5. cvc5."""
     t0 = time.time()
     forms = list(hyps) + [z3.Not(goal)]
     if not any(has_quant(f) for f in forms):
         return _prove(hyps, goal, timeout_ms, rounds, want_model, fallbacks)
+    # goal-directed stage: only instances built from the negated goal's own skolem constants (and what the instances derive from them);
+    # kills the quadratic noise of pairwise facts over unrelated terms.  Any set of instances is sound.
+    try:
+        ng = nnf_skolem([z3.Not(goal)])
+        gnames = set()
+        for f_ in ng:
+            gnames |= set(n_ for n_ in symbols_of(f_) if '!' in n_)
+        gnames -= set(n_ for n_ in symbols_of(goal))
+        for h_ in hyps:
+            gnames -= symbols_of(h_)
+        if gnames:
+            base_h = [hyps[i] for i in focus if i < len(hyps)] if focus else list(hyps)
+            inst = Inst(nnf_skolem(base_h) + ng, rounds=8, must_contain=gnames)
+            r, _ = inst.run(min(timeout_ms, 6000))
+            if TRACE:
+                print('   stage goal-directed', len(base_h), sorted(gnames)[:4], r, inst.n_inst, round(time.time() - t0, 1), flush=True)
+            if r == 'unsat':
+                return {'status': 'proved', 'backend': 'inst+z3-qf(goal-directed)', 'secs': time.time() - t0, 'n_inst': inst.n_inst, 'model': None}
+    except Exception:
+        if TRACE:
+            import traceback
+            traceback.print_exc()
+    if focus:
+        # the contract names the facts this obligation follows from (`using`): that subset first (sound: a subset of the hypotheses)
+        subf = [hyps[i] for i in focus if i < len(hyps)]
+        for uidx in (False, True):
+            try:
+                inst = Inst(nnf_skolem(subf + [z3.Not(goal)]), rounds=rounds, use_idx=uidx)
+                r, _ = inst.run(min(timeout_ms, 6000))
+                if TRACE:
+                    print('   stage using', len(subf), uidx, r, inst.n_inst, flush=True)
+                if r == 'unsat':
+                    return {'status': 'proved', 'backend': 'inst+z3-qf(using)', 'secs': time.time() - t0, 'n_inst': inst.n_inst, 'model': None}
+            except Exception:
+                break
     first = _prove(hyps, goal, timeout_ms, 3, want_model, False)
     if TRACE:
         print('   stage first', len(hyps), first['status'], first.get('n_inst'), round(time.time() - t0, 1), flush=True)
@@ -681,7 +800,8 @@ def ob_to_smt2(hyps, goal):
 
 
 def work(item):
-    name, smt2, is_cover, timeout_ms = item
+    name, smt2, is_cover, timeout_ms = item[:4]
+    focus = item[4] if len(item) > 4 else None
     z3.set_param('smt.random_seed', 0)
     try:
         fs = list(z3.parse_smt2_string(smt2))
@@ -692,7 +812,7 @@ def work(item):
             return name, {'status': 'cover-ok' if r['status'] != 'proved' else 'vacuous', 'backend': r['backend'], 'secs': r['secs'], 'n_inst': r['n_inst'], 'model': None}
         hyps, neg = fs[:-1], fs[-1]
         goal = neg.children()[0] if z3.is_not(neg) else z3.Not(neg)
-        return name, prove(hyps, goal, timeout_ms=timeout_ms)
+        return name, prove(hyps, goal, timeout_ms=timeout_ms, focus=focus)
     except Exception as e:
         import traceback
         return name, {'status': 'error', 'backend': 'none', 'secs': 0, 'n_inst': 0, 'model': traceback.format_exc()[-800:]}
